@@ -341,5 +341,5 @@ def run(run, replay=None):
     unit = build(run)
     res = unit.run(rlimit=60)
     from units.C14 import cex
-    run.add_verus(unit, res, cex_finder=lambda f: cex.find(run, f))
+    run.add_verus(unit, res, cex_finder=lambda f: cex.find(run, f), expect_fail=tuple(run.extra.get('vacuity_probe_labels', ())))
     run.assumptions.append("Preconditions are the callers' obligations and are NOT carried: that each emit_* reports the interpreter's true stack effect (stack_dec is only called on a non-empty tracked stack), that jump targets handed to fill_jump are instruction boundaries within 16 bits, that the unit stack is non-empty.")
